@@ -1,7 +1,7 @@
 (** C11 — pipelines and command substitutions move all data, in order, without deadlock
     (partial: theorems about the transition-system model of brush's pipeline algorithm).
     Only pinned statements, [exact], and [Print Assumptions]. *)
-From BV Require Import Base.Prelude Conc.Pipe Conc.Sched Conc.SchedProofs Conc.Deadlock Conc.Status.
+From BV Require Import Base.Prelude Conc.Pipe Conc.Sched Conc.SchedProofs Conc.Deadlock Conc.Known Conc.Status.
 
 (** On every schedule, for every pipe: read ++ in-flight = written (order kept, nothing lost
     or duplicated), and the buffer stays within the capacity. Any stage kinds, any capacity. *)
@@ -19,6 +19,16 @@ Theorem c11_progress_all_spawned : forall (A : Type) (C : nat), (1 <= C)%nat ->
   exists s', step C s s'.
 Proof. exact progress_all_spawned. Qed.
 Print Assumptions c11_progress_all_spawned.
+
+(** The same outside the class of the known finding: if every stage that is executed inline and is
+    not the last one emits at most the capacity ([known_class], computed from the stages' stream
+    functions; the python driver decides the same predicate), no reachable unfinished state is stuck. *)
+Theorem c11_progress_outside_known : forall (A : Type) (C : nat), (1 <= C)%nat ->
+  forall (sgs : list (stage A)) (s : state A),
+  known_class A C sgs = false -> reach C (init sgs) s -> ~ final s ->
+  exists s', step C s s'.
+Proof. exact progress_outside_known. Qed.
+Print Assumptions c11_progress_outside_known.
 
 (** No schedule from a reachable state is longer than that state's measure (any stage kinds):
     together with progress, every schedule of an all-spawned pipeline ends in the final state. *)
@@ -59,6 +69,13 @@ Theorem c11_run_sched_sound : forall (A : Type) (C q : nat) (down : bool) (fuel 
 Proof. exact (fun A C q down fuel => @run_sched_reach A C q down fuel). Qed.
 Print Assumptions c11_run_sched_sound.
 
+(** ... and their verdict "stuck" (what the driver turns into "this pipeline hangs") is a state in
+    which no label at all is enabled. *)
+Theorem c11_stuck_verdict_sound : forall (A : Type) (C q : nat) (down : bool) (fuel : nat),
+  q <> 0%nat -> forall s s' : state A, run_sched C q down fuel s = OStuck s' -> stuck C s'.
+Proof. exact run_sched_stuck. Qed.
+Print Assumptions c11_stuck_verdict_sound.
+
 (** `$?` and PIPESTATUS computed by the wait loop equal bash's rule (last status; with
     pipefail the rightmost failure; `!` inverts; PIPESTATUS is the status vector). *)
 Theorem c11_pipeline_status_spec : forall pipefail bang codes, codes <> [] ->
@@ -80,3 +97,12 @@ Theorem c11_nonvacuous :
   exists s, reach 2 (init ex_cfg) s /\ final s /\ out s = [0; 1]%nat /\ sts s = [0; 141; 0]%nat.
 Proof. exact ex_nonvacuous. Qed.
 Print Assumptions c11_nonvacuous.
+
+(** The refutation witness lies in the class; pipelines with a bounded inline stage do not. *)
+Theorem c11_known_examples :
+  known_class nat 1 dl_cfg = true /\ known_class nat 2 ex_cfg = false /\
+  known_class nat 4 [ mkStage Spawned NotStarted 0 (Some 0%nat) true [0;1;2;3;4;5;6;7]%nat;
+                      mkStage Inline NotStarted 0 (Some 3%nat) true [];
+                      mkStage Spawned NotStarted 0 None true [] ] = false.
+Proof. exact known_examples. Qed.
+Print Assumptions c11_known_examples.
